@@ -209,6 +209,7 @@ class SeriesContainer:
         self.detected_ndim = False
         if isinstance(series, SeriesContainer):
             self.series = series.series
+            self.detected_ndim = series.detected_ndim
         elif np is not None and isinstance(series, np.ndarray):
             # A np.matrix always returns a 2D array, also if you select one row (to be consistent
             # and always be a matrix datastructure). The methods in this toolbox expect a
